@@ -87,8 +87,13 @@ TKey make_key(World &w, Tape &t, const std::array<uint8_t, 16> *force_name = nul
     for (int i = 0; i < 16; i++) k.name[i] = (uint8_t) ('k' + (i * 7 + k.uid * 13) % 23);
     k.name[0] = (uint8_t) k.uid; k.name[15] = (uint8_t) (0xA0 + k.uid);
     if (force_name) k.name = *force_name;
+    // key material: a hash of (tape byte, uid) - the uid is unique per world, so no two keys (of A or B) ever share material
     uint8_t seed = t.u8();
-    for (int i = 0; i < 32; i++) { k.sym[i] = (uint8_t) (seed * 31 + i * 5 + k.uid * 17 + 1); k.mac[i] = (uint8_t) (seed * 7 + i * 11 + k.uid * 29 + 3); }
+    for (int i = 0; i < 32; i++) {
+        uint8_t in[4] = { seed, (uint8_t) k.uid, (uint8_t) i, 0x5a }; uint64_t h1 = fnv(in, 4); in[3] = 0xa5; uint64_t h2 = fnv(in, 4);
+        k.sym[i] = (uint8_t) (h1 >> 17); k.mac[i] = (uint8_t) (h2 >> 23);
+    }
+    k.sym[0] = (uint8_t) k.uid; k.mac[0] = (uint8_t) k.uid;   // ... and differ in the first byte by construction
     k.symlen = t.coin() ? 32 : 16;
     return k;
 }
@@ -257,17 +262,18 @@ void judge(World &w, Attempt &a, int ci, int base, const Hello &h, const std::st
     int z = -1;
     if (a.tent) {
         z = find_cred_by_secret(w, a.tent_secret);
-        VF_CHECK(z >= 0, "resumed-with-wrong-secret", "server entered resumption with a secret (%s..) that belongs to no issued credential; %s", hex(a.tent_secret.data(), a.tent_secret.size(), 8).c_str(), ctx.c_str());
-        if (base >= 0) VF_CHECK(z == base, "resumed-with-wrong-secret", "server entered resumption with the secret of %s, not of the presented credential; %s", cred_str(w, z).c_str(), ctx.c_str());
+        bool allzero = true; for (auto b : a.tent_secret) if (b) allzero = false;
+        VF_CHECK(z >= 0, allzero ? "resumed-with-wrong-secret:zeroed" : "resumed-with-wrong-secret:unknown", "server entered resumption with a secret (%s..) that belongs to no issued credential; %s", hex(a.tent_secret.data(), a.tent_secret.size(), 8).c_str(), ctx.c_str());
+        if (base >= 0) VF_CHECK(z == base, "resumed-with-wrong-secret:other-session", "server entered resumption with the secret of %s, not of the presented credential; %s", cred_str(w, z).c_str(), ctx.c_str());
         if (binder_attack) VF_FAIL("psk-binder-not-verified", "server selected the resumption PSK although the binder cannot verify; %s", ctx.c_str());
     }
     if (a.outcome == O_RESUMED) {
-        VF_CHECK(a.tent && z >= 0, "resumed-with-wrong-secret", "resumed but no secret observed; %s", ctx.c_str());
+        VF_CHECK(a.tent && z >= 0, "resumed-with-wrong-secret:unobserved", "resumed but no secret observed; %s", ctx.c_str());
         VF_CHECK(a.c_res, "resume-disagreement", "server reports a resumed session, client does not; %s", ctx.c_str());
         VF_CHECK(a.data_ok, "resumed-data-roundtrip-failed", "application data did not round-trip on the resumed session; %s", ctx.c_str());
         // the keys in use derive from the original secret: server's current secret still equals the credential's
         bool t; Bytes cur = server_secret(a.p->s.ssl, &t);
-        VF_CHECK(t && cur == w.creds[z].secret, "resumed-with-wrong-secret", "server secret after the handshake differs from the credential's; %s", ctx.c_str());
+        VF_CHECK(t && cur == w.creds[z].secret, "resumed-with-wrong-secret:changed", "server secret after the handshake differs from the credential's; %s", ctx.c_str());
         if (!never_sig.empty()) VF_FAIL(never_sig, "attacker-modified credential was resumed; %s", ctx.c_str());
         std::string why = why_not(w, w.creds[z], h);
         if (!why.empty()) VF_FAIL(why, "server resumed a credential that must not resume; %s", ctx.c_str());
@@ -402,9 +408,31 @@ static void prop(Tape &t, Ctx &c) {
         do_attempt(ci, x, h, kind, "", false, true, nullptr, kind);
     };
 
-    // Scripted prefix (1 case in 6): history shapes that random command choice reaches too rarely - several live connections
+    auto tls13_victim_id = [&](int x, int ci) {
+        Client &k = w.cl[ci];
+        matrixSslClearSessionId(k.sid); k.cred = -1; k.dirty = true;
+        Bytes id = w.creds[x].ident; if (t.chance(1, 3)) { for (size_t i = 4; i < id.size(); i++) id[i] = 0; }   // or just "slot index + zeros"
+        unsigned char junk[48]; t.bytes(junk, 48); auto cand = case_suites(w, TLS13); const Suite &su = cand[t.below(cand.size())];
+        c14_sid_set_cipher(k.sid, su.id); c14_sid_set_master(k.sid, junk); c14_sid_set_id(k.sid, id.data(), (int) id.size());
+        Hello h{ TLS13, 0, { su.id }, false };
+        w.note(fmt("Tls13-hello-with-victim-id(c%d,%s)", ci, cred_str(w, x).c_str()));
+        w.disturbed = true;
+        bool follow = t.coin(); int fk = w.force_keep; if (follow) w.force_keep = 0;
+        do_attempt(ci, -1, h, "Tls13-hello-with-victim-id", "tls13-hello-with-cached-id-resumes", false, false, nullptr, "Tls13-hello-with-victim-id");
+        w.force_keep = fk;
+        if (!follow) return;
+        // follow-up: the attacker now offers the victim's id with an all-zero master secret and the TLS 1.3 suite, at the victim's version
+        const Cred cr = w.creds[x]; unsigned char zero[48] = { 0 };
+        matrixSslClearSessionId(k.sid); c14_sid_set_cipher(k.sid, su.id); c14_sid_set_master(k.sid, zero); c14_sid_set_id(k.sid, cr.ident.data(), (int) cr.ident.size());
+        k.cred = -1; k.dirty = true;
+        Hello h2{ cr.ver, cr.ems ? 0 : -1, { su.id }, false };
+        w.note(fmt("Resume-victim-id-with-zero-secret(c%d,%s,suite %04x)", ci, cred_str(w, x).c_str(), su.id));
+        do_attempt(ci, x, h2, "Resume-victim-id-with-zero-secret", "resumed-with-wrong-secret:zeroed", false, false, nullptr, "Resume-victim-id-with-zero-secret");
+    };
+    // Scripted prefix (1 case in 6, a second shape 1 in 12): history shapes that random command choice reaches too rarely - several live connections
     // of ONE cached session, one of which dies with a fatal alert while another is closed normally before/after.
-    if (t.chance(1, 6)) {
+    unsigned script = (unsigned) t.below(12);   // 0..8: random commands only (all-zero tape = simplest case)
+    if (script >= 10) {
         int ver = (int) t.below(2); auto cand = case_suites(w, ver); const Suite &su = cand[t.below(cand.size())];
         c.count("case:scripted-shared-slot");
         w.force_keep = 1; do_full(0, 0, ver, su, t.chance(1, 4) ? -1 : 0, false);
@@ -416,6 +444,19 @@ static void prop(Tape &t, Ctx &c) {
             size_t acts = 1 + t.below(3);
             for (size_t i = 0; i < acts && !w.live.empty(); i++) { if (i == 0 || t.coin()) fatal_on(t.below(w.live.size()), t.coin(), (unsigned) t.below(8)); else close_live(t.below(w.live.size()), t.coin()); }
             while (!w.live.empty() && t.chance(2, 3)) close_live(t.below(w.live.size()), t.coin());
+            honest_resume(0, x);
+        }
+        w.force_keep = -1;
+    } else if (script == 9) {
+        // a foreign TLS 1.3 connection that merely *names* a cached id (legacy_session_id) while the victim's connection is open or closed
+        int ver = (int) t.below(2); auto cand = case_suites(w, ver); const Suite &su = cand[t.below(cand.size())];
+        c.count("case:scripted-victim-id");
+        w.force_keep = t.coin() ? 1 : 0; do_full(0, 0, ver, su, 0, false);
+        int x = w.cl[0].cred;
+        if (x >= 0 && w.creds[x].kind == CK_ID) {
+            w.force_keep = 0; tls13_victim_id(x, (int) (w.cl.size() - 1));
+            w.force_keep = -1;
+            while (!w.live.empty()) close_live(0, t.coin());
             honest_resume(0, x);
         }
         w.force_keep = -1;
@@ -480,7 +521,7 @@ static void prop(Tape &t, Ctx &c) {
                 case 0: { size_t pos = t.coin() ? id.size() - 1 - t.below(std::min<size_t>(32, id.size())) : t.below(id.size()); id[pos] ^= (uint8_t) (1 << t.below(8)); kind = tk ? "Ticket-flip" : "Psk-identity-flip"; sig = tk ? "altered-ticket-resumes" : "altered-psk-identity-resumes"; break; }
                 case 1: id.resize(id.size() - 1 - t.below(std::min<size_t>(id.size() - 1, 40))); kind = tk ? "Ticket-truncate" : "Psk-identity-truncate"; sig = tk ? "truncated-ticket-resumes" : "truncated-psk-identity-resumes"; break;
                 case 2: { size_t n = 1 + t.below(20); for (size_t i = 0; i < n; i++) id.push_back(t.u8()); kind = tk ? "Ticket-extend" : "Psk-identity-extend"; sig = tk ? "extended-ticket-resumes" : "extended-psk-identity-resumes"; break; }
-                case 3: if (tk) { Bytes s = cr.secret; s[t.below(48)] ^= 1; c14_sid_set_master(k.sid, s.data()); kind = "Ticket-with-other-master-secret"; sig = "resumed-with-wrong-secret"; }
+                case 3: if (tk) { Bytes s = cr.secret; s[t.below(48)] ^= 1; c14_sid_set_master(k.sid, s.data()); kind = "Ticket-with-other-master-secret"; sig = "resumed-with-wrong-secret:client-secret-differs"; }
                         else { Bytes s = cr.secret; s[t.below(s.size())] ^= 1; c14_sid_set_psk_key(k.sid, s.data(), (int) s.size()); kind = "Psk-wrong-key(binder)"; sig = "psk-binder-not-verified"; binder = true; }
                         break;
                 case 4: id = w.creds[y].ident; base = y; kind = tk ? "Ticket-swap" : "Psk-identity-swap"; sig = tk ? "swapped-ticket-resumes" : "swapped-psk-identity-resumes"; binder = !tk; break;
@@ -526,15 +567,7 @@ static void prop(Tape &t, Ctx &c) {
         } else if (op < 80) {                             // ---- TLS 1.3 full handshake whose legacy_session_id is a victim's cached id
             std::vector<int> ids; for (size_t i = 0; i < w.creds.size(); i++) if (w.creds[i].kind == CK_ID) ids.push_back((int) i);
             if (ids.empty()) { c.count("cmd:tls13-victim-id-no-id"); continue; }
-            int x = ids[t.below(ids.size())]; int ci = (int) t.below(w.cl.size()); Client &k = w.cl[ci];
-            matrixSslClearSessionId(k.sid); k.cred = -1; k.dirty = true;
-            Bytes id = w.creds[x].ident; if (t.chance(1, 3)) { for (size_t i = 4; i < id.size(); i++) id[i] = 0; }   // or just "slot index + zeros"
-            unsigned char junk[48]; t.bytes(junk, 48); auto cand = case_suites(w, TLS13); const Suite &su = cand[t.below(cand.size())];
-            c14_sid_set_cipher(k.sid, su.id); c14_sid_set_master(k.sid, junk); c14_sid_set_id(k.sid, id.data(), (int) id.size());
-            Hello h{ TLS13, 0, { su.id }, false };
-            w.note(fmt("Tls13-hello-with-victim-id(c%d,%s)", ci, cred_str(w, x).c_str()));
-            w.disturbed = true;
-            do_attempt(ci, -1, h, "Tls13-hello-with-victim-id", "tls13-hello-with-cached-id-resumes", false, false, nullptr, "Tls13-hello-with-victim-id");
+            tls13_victim_id(ids[t.below(ids.size())], (int) t.below(w.cl.size()));
         } else if (op < 86) {                             // ---- AdvanceClock
             static const int64_t D[] = { 1000, 59000, 358000, 363000, 3600000, 0 /*LIFE-5s*/, 1 /*LIFE+5s*/, 90000000, 200000000 };
             size_t i = t.below(9); int64_t dt = D[i]; if (i == 5) dt = LIFE - 5000; if (i == 6) dt = LIFE + 5000;
